@@ -27,7 +27,8 @@ size_t strlen(const char *s)
 {
 	__CPROVER_assert(s != NULL, "strlen: non-NULL argument");
 	size_t n = nondet_size_t();
-	__CPROVER_assume(n < ROOM(s));
+	__CPROVER_assume(g_str_k <= ((size_t)1 << 60));	/* ghost index fits ptrdiff_t */
+	__CPROVER_assume(n < ROOM(s) && n <= ((size_t)1 << 60));
 	__CPROVER_assume(s[n] == 0);
 	/* first NUL: no earlier NUL at position 0 or at the ghost index */
 	__CPROVER_assume(n == 0 || s[0] != 0);
